@@ -7,6 +7,7 @@ passes a comparison function that answers by looking the (unordered) identifier 
 arguments, and records the returned sequences and the call log as identifiers.
 """
 import uuid
+import numpy as np
 from soundevent import data
 from soundevent.geometry import group_sound_events
 
@@ -22,12 +23,15 @@ RULE = ("every graph (symmetric irreflexive relation) on 0..5 (quick) / 0..6 (th
         "enumeration plus random graphs on 7..12 positions (chains in shuffled order, stars, cliques, cycles, sparse and "
         "dense random), plus lists that hold an event at several positions (twins: every partition of <= 4 (quick) / <= 5 "
         "(thorough) positions into twin classes x every relation on the events incl. f(a, a); random ones with 1..3 repeats); "
-        "each executed twice (distinct geometries, twins = the same object / events identical up to their uuid, twins = equal "
+        "the comparison function answers as bool, numpy.bool_ or int (all three for every graph on <= 4 (quick) / <= 5 "
+        "(thorough) positions, random otherwise); each executed twice (distinct geometries, twins = the same object / events identical up to their uuid, twins = equal "
         "copies); "
         "non-trivial = at least one edge and at least two components or a component that needs a chain of >= 2 links")
 TRUSTED_BASE = ["checks/c13.py (build SoundEvents, comparison function = table lookup + argument log, "
                 "map returned events back to identifiers by uuid)"]
-ASSUMPTIONS = ["the comparison function is symmetric and sees events, not positions; a list may hold an event twice (twins)",
+ASSUMPTIONS = ["similar = the comparison function's answer is true in Python's sense (bool, numpy.bool_, int 0/1 are generated; "
+               "other truthy objects such as non-empty lists are not: the signature promises a bool)",
+               "the comparison function is symmetric and sees events, not positions; a list may hold an event twice (twins)",
                "reachability for 7..12 nodes is computed in TLA+ by the validator (closure iterated at most n times)"]
 
 _REC = data.Recording(path="a.wav", duration=1000.0, channels=1, samplerate=8000)
@@ -55,6 +59,9 @@ def _events(ids, variant):
     return [_event(a, 1) for a in ids]
 
 
+_RET = {"bool": bool, "np_bool": np.bool_, "int": int}
+
+
 def _run(case, variant):
     ids = case["id"]
     rel = {(a, b) for a, b in case["e"]} | {(b, a) for a, b in case["e"]}       # on identifiers, incl. (a, a) for twins
@@ -65,10 +72,12 @@ def _run(case, variant):
     def identifier(x):
         return ident.get(getattr(x, "uuid", None), 0)
 
+    answer = _RET[case.get("ret", "bool")]       # the type in which the comparison function hands its answer back
+
     def comparison_fn(se1, se2):
         a, b = identifier(se1), identifier(se2)
         calls.append([a, b])
-        return (a, b) in rel
+        return answer((a, b) in rel)
 
     try:
         result = group_sound_events(events, comparison_fn)
@@ -86,10 +95,10 @@ def execute(case):
     return {"runs": [_run(case, 0), _run(case, 1)]}
 
 
-def _graph(n, edges, ids=None, loops=()):
+def _graph(n, edges, ids=None, loops=(), ret="bool"):
     """edges / loops are on identifiers; without ids every position holds its own event."""
     es = sorted({(min(a, b), max(a, b)) for a, b in edges if a != b} | {(a, a) for a in loops})
-    return {"n": n, "id": list(ids) if ids else list(range(1, n + 1)), "e": [list(e) for e in es]}
+    return {"n": n, "id": list(ids) if ids else list(range(1, n + 1)), "e": [list(e) for e in es], "ret": ret}
 
 
 def random_cases(rng, tier):
@@ -130,9 +139,10 @@ def random_cases(rng, tier):
             ids = list(range(1, n + 1)) + [rng.randrange(1, n + 1) for _ in range(extra)]
             rng.shuffle(ids)
             rep = {a for a in ids if ids.count(a) >= 2}
-            yield _graph(len(ids), e, ids, [a for a in rep if rng.random() < 0.5])      # f(a, a): both answers
+            yield _graph(len(ids), e, ids, [a for a in rep if rng.random() < 0.5],       # f(a, a): both answers
+                         ret=rng.choice(["bool", "np_bool", "int"]))
         else:
-            yield _graph(n, e)
+            yield _graph(n, e, ret=rng.choice(["bool", "np_bool", "int"]))
 
 
 def nontrivial(o):
